@@ -237,7 +237,9 @@ func runC14(c *kernel.Ctx) {
 			if restarts >= 4 {
 				break
 			}
-			heal()
+			if t.Chance(1, 2) {
+				heal() // otherwise the broker restarts while it is cut off: it meets the other one's (older) view only later
+			}
 			restarts++
 			if t.Chance(1, 2) {
 				cl.Crash(0)
